@@ -238,6 +238,33 @@ pub fn check_key(c: &KeyCase) -> CheckResult {
         }
         rep.class("other-salt");
     }
+    // the same bytes split differently between salt and secret are a different (salt, secret)
+    // pair: the key must be the documented derivation from exactly these two inputs
+    if !c.secret.is_empty() && !c.items.is_empty() {
+        let k = 1 + (c.items[0].fill as usize % c.secret.len());
+        let mut salt2 = c.salt.clone();
+        salt2.extend_from_slice(&c.secret[..k]);
+        let secret2 = c.secret[k..].to_vec();
+        let cr2 = Cryptor::new(&salt2, &secret2).map_err(|e| Failure::new("cryptor-new", format!("{e}")))?;
+        let key2 = doc_derive_key(&secret2, &salt2);
+        let it = &c.items[0];
+        let vid = Uuid::from_u128(it.version);
+        let payload = payload_of(it);
+        let sealed2 = cr2.seal(vid, payload.clone()).map_err(|e| Failure::new("seal-error", format!("{e}")))?;
+        let opened = doc_open(&key2, vid.as_bytes(), &sealed2).map_err(|e| {
+            Failure::new(
+                "not-the-documented-scheme",
+                format!("with salt = S||X ({} bytes) and secret = T ({} bytes), derived in a process that had derived the key for salt S and secret X||T before, a sealed value does not open under the documented key derivation: {e}", salt2.len(), secret2.len()),
+            )
+        })?;
+        crate::ensure!(opened == payload, "open-differs", "independent open yields different bytes");
+        crate::ensure!(
+            cr.unseal(vid, sealed2).is_err(),
+            "tamper-accepted:other-salt",
+            "a value sealed under (salt S||X, secret T) opens under (salt S, secret X||T)"
+        );
+        rep.class("salt-secret-boundary-shifted");
+    }
     if nonces.len() >= 12 {
         for pos in 0..12 {
             let distinct: BTreeSet<u8> = nonces.iter().map(|n| n[pos]).collect();
